@@ -9,6 +9,7 @@ import GeoProofs.Lemmas.RelateSpecLocate
 import GeoProofs.Lemmas.RelateSpecBBox
 import GeoProofs.Lemmas.RelateSpecSwap
 import GeoProofs.Lemmas.RelateSpecDisjoint
+import GeoProofs.Lemmas.RelateSpecRewrite
 import Mathlib.Tactic.NormNum
 
 namespace Geo.Proofs.C01
@@ -419,5 +420,91 @@ example : (relateParts ⟨[], [[⟨0, 0⟩, ⟨1, 1⟩]], []⟩ ⟨[], [], [⟨[
     simp at hq
     subst hq
     rfl
+
+/-! ## 2'. The whole matrix is independent of how an operand is written (segment directions kept) -/
+
+/-- [T] **the matrix does not depend on how either operand is written**, for `PartsEquiv` re-writings:
+same directed segments as a multiset, same single coordinates and isolated points as sets, same
+point location. -/
+theorem relateParts_congr {pa pa' pb pb' : Parts} (ha : Spec.PartsEquiv pa pa') (hb : Spec.PartsEquiv pb pb') :
+    relateParts pa pb = relateParts pa' pb' :=
+  (Spec.relateParts_congr_left ha pb).trans (Spec.relateParts_congr_right pa' hb)
+
+theorem relateSpec_congr_parts {a a' b b' : Geom} (ha : Spec.PartsEquiv (parts a) (parts a'))
+    (hb : Spec.PartsEquiv (parts b) (parts b')) : relateSpec a b = relateSpec a' b' :=
+  relateParts_congr ha hb
+
+/-- [T] members re-written one by one (closed curve / ring started at another vertex, holes in
+another order) and members / points listed in another order are `PartsEquiv` re-writings. -/
+theorem partsEquiv_members (pts : List Pt) {cs cs' : List (List Pt)} {as as' : List Poly}
+    (hc : List.Forall₂ Spec.CurveRewrite cs cs') (ha : List.Forall₂ Spec.PolyRewrite as as') :
+    Spec.PartsEquiv ⟨pts, cs, as⟩ ⟨pts, cs', as'⟩ := Spec.PartsEquiv.members pts hc ha
+
+theorem partsEquiv_perm {pts pts' : List Pt} {cs cs' : List (List Pt)} {as as' : List Poly}
+    (hp : pts.Perm pts') (hc : cs.Perm cs') (ha : as.Perm as') :
+    Spec.PartsEquiv ⟨pts, cs, as⟩ ⟨pts', cs', as'⟩ := Spec.PartsEquiv.perm hp hc ha
+
+/-- [T] polygon with the exterior ring started at another vertex: same matrix, either position. -/
+theorem relateSpec_polygon_ext_rotate (a b : Pt) (l1 l2 : List Pt) (ints : List (List Pt)) (g : Geom) :
+    relateSpec (.polygon ⟨a :: l1 ++ b :: (l2 ++ [a]), ints⟩) g =
+      relateSpec (.polygon ⟨b :: l2 ++ a :: (l1 ++ [b]), ints⟩) g :=
+  relateSpec_congr_parts
+    (Spec.PartsEquiv.members [] List.Forall₂.nil
+      (List.Forall₂.cons (Spec.PolyRewrite.ext_rotate a b l1 l2 ints) List.Forall₂.nil))
+    (Spec.PartsEquiv.refl _)
+
+/-- [T] polygon with a hole started at another vertex. -/
+theorem relateSpec_polygon_hole_rotate (ext : List Pt) (h1 h2 : List (List Pt)) (a b : Pt) (l1 l2 : List Pt)
+    (g : Geom) :
+    relateSpec (.polygon ⟨ext, h1 ++ (a :: l1 ++ b :: (l2 ++ [a])) :: h2⟩) g =
+      relateSpec (.polygon ⟨ext, h1 ++ (b :: l2 ++ a :: (l1 ++ [b])) :: h2⟩) g :=
+  relateSpec_congr_parts
+    (Spec.PartsEquiv.members [] List.Forall₂.nil
+      (List.Forall₂.cons (Spec.PolyRewrite.hole_rotate ext h1 h2 a b l1 l2) List.Forall₂.nil))
+    (Spec.PartsEquiv.refl _)
+
+/-- [T] polygon with the holes in another order. -/
+theorem relateSpec_polygon_holes_perm (ext : List Pt) {ints ints' : List (List Pt)} (h : ints.Perm ints')
+    (g : Geom) : relateSpec (.polygon ⟨ext, ints⟩) g = relateSpec (.polygon ⟨ext, ints'⟩) g :=
+  relateSpec_congr_parts
+    (Spec.PartsEquiv.members [] List.Forall₂.nil
+      (List.Forall₂.cons (Spec.PolyRewrite.holes_perm ext h) List.Forall₂.nil))
+    (Spec.PartsEquiv.refl _)
+
+example (ext h1 h2 : List Pt) (g : Geom) :
+    relateSpec (.polygon ⟨ext, [h1, h2]⟩) g = relateSpec (.polygon ⟨ext, [h2, h1]⟩) g :=
+  relateSpec_polygon_holes_perm ext (List.Perm.swap _ _ _) g
+
+/-- [T] closed line string started at another vertex. -/
+theorem relateSpec_lineString_rotate (a b : Pt) (l1 l2 : List Pt) (g : Geom) :
+    relateSpec (.lineString (a :: l1 ++ b :: (l2 ++ [a]))) g =
+      relateSpec (.lineString (b :: l2 ++ a :: (l1 ++ [b]))) g :=
+  relateSpec_congr_parts
+    (Spec.PartsEquiv.members [] (List.Forall₂.cons (Spec.CurveRewrite.rotate a b l1 l2) List.Forall₂.nil)
+      List.Forall₂.nil)
+    (Spec.PartsEquiv.refl _)
+
+/-- [T] member order of `Multi*` geometries is irrelevant for the matrix. -/
+theorem relateSpec_multiPolygon_perm {qs qs' : List Poly} (h : qs.Perm qs') (g : Geom) :
+    relateSpec (.multiPolygon qs) g = relateSpec (.multiPolygon qs') g :=
+  relateSpec_congr_parts (Spec.PartsEquiv.perm (List.Perm.refl _) (List.Perm.refl _) h) (Spec.PartsEquiv.refl _)
+
+theorem relateSpec_multiLineString_perm {ls ls' : List (List Pt)} (h : ls.Perm ls') (g : Geom) :
+    relateSpec (.multiLineString ls) g = relateSpec (.multiLineString ls') g :=
+  relateSpec_congr_parts (Spec.PartsEquiv.perm (List.Perm.refl _) h (List.Perm.refl _)) (Spec.PartsEquiv.refl _)
+
+theorem relateSpec_multiPoint_perm {ps ps' : List Pt} (h : ps.Perm ps') (g : Geom) :
+    relateSpec (.multiPoint ps) g = relateSpec (.multiPoint ps') g :=
+  relateSpec_congr_parts (Spec.PartsEquiv.perm h (List.Perm.refl _) (List.Perm.refl _)) (Spec.PartsEquiv.refl _)
+
+example (q1 q2 q3 : Poly) (g : Geom) :
+    relateSpec (.multiPolygon [q1, q2, q3]) g = relateSpec (.multiPolygon [q2, q1, q3]) g :=
+  relateSpec_multiPolygon_perm (List.Perm.swap _ _ _) g
+
+/-- the same in the second position, by transposition -/
+example (q1 q2 : Poly) (g : Geom) :
+    relateSpec g (.multiPolygon [q1, q2]) = relateSpec g (.multiPolygon [q2, q1]) :=
+  relateSpec_congr_parts (Spec.PartsEquiv.refl _)
+    (Spec.PartsEquiv.perm (List.Perm.refl _) (List.Perm.refl _) (List.Perm.swap _ _ _))
 
 end Geo.Proofs.C01
